@@ -63,7 +63,7 @@ class ModuleV:
 
     def reload(self):
         """forget the module state (module-level mutable state must not leak from one explored path into the next)"""
-        self.ns = {}
+        self.ns.clear()          # in place: functions imported elsewhere keep resolving their globals here
         self.loaded = False
 
     def func(self, qualname):
@@ -1757,7 +1757,7 @@ class Engine:
                 v = getattr(o, name)
             except AttributeError:
                 raise PyRaise(AttributeError, (name,))
-            if callable(v) and not isinstance(v, type):
+            if callable(v) and not isinstance(v, (type, HostObj)):
                 return NativeFn(f"host:{type(o).__name__}.{name}", v)
             return v
         if self.is_native_concrete(o):
@@ -1784,7 +1784,15 @@ class Engine:
             if name == "__name__":
                 return o.node.name
         if isinstance(o, Bound):
+            if name == "__func__":
+                return o.func
+            if name == "__self__":
+                return o.self_obj
             return self.getattr(o.func, name)
+        if isinstance(o, (FuncV, NativeFn)) and name in ("__func__", "__self__"):
+            raise PyRaise(AttributeError, (name,))
+        if o is None:
+            raise PyRaise(AttributeError, (f"'NoneType' object has no attribute '{name}'",))
         raise Unsupported(f"getattr({type(o).__name__}, {name!r})")
 
     def is_native_concrete(self, o):
@@ -1810,6 +1818,11 @@ class Engine:
             return h(self) if callable(h) and not isinstance(h, (FuncV, NativeFn)) else h
         if mod.modname in ("pyhf", "pyhf.tensor.manager") and name == "get_backend" and self.policy.get("model_backend", True):
             return NativeFn("get_backend", lambda eng: (eng.get_tensorlib(), eng.get_optimizer()), wants_engine=True)
+        if not self.policy.get("model_backend", True) and mod.modname == "pyhf" and name in ("tensorlib", "default_backend", "optimizer", "default_optimizer"):
+            # the real tensor/manager.py state is in use (C11): read it the way pyhf/__init__.py::__getattr__ does
+            st = self.getattr(self.find_module("pyhf.tensor.manager"), "state")
+            pair = st["default" if name.startswith("default") else "current"]
+            return pair[0] if name in ("tensorlib", "default_backend") else pair[1]
         if mod.modname == "pyhf" and name in ("tensorlib", "default_backend"):
             return self.get_tensorlib()
         if mod.modname == "pyhf" and name in ("optimizer", "default_optimizer"):
@@ -2006,6 +2019,10 @@ class Engine:
             c, _ = f.cls.lookup("__call__")
             if c is not None:
                 return self.call(Bound(c, f), args, kwargs)
+        if isinstance(f, HostObj) and callable(f):
+            return f(*args, **kwargs)
+        if f is None or isinstance(f, (bool, int, float, str, list, dict, tuple)):
+            raise PyRaise(TypeError, (f"'{type(f).__name__}' object is not callable",))
         raise Unsupported(f"call of {f!r}", node)
 
     def instantiate(self, cls, args, kwargs):
